@@ -16,7 +16,8 @@ from pyvc.runner import Unit, REPO
 from pyvc.sym import *  # noqa
 from pyvc.bounded import bounded_unit
 
-LEVEL = "proof"
+LEVEL = "exploration"
+RULE = "all kernels of length <= 3 over the per-ISA vocabulary + seeded random kernels of length 4-7; with/without flag dependencies; first line 1 and 1500"
 KDG = "osaca/semantics/kernel_dg.py"
 FE = "osaca/frontend.py"
 TRUSTED = ["pyvc symbolic semantics; z3 5.1.0", "copy.copy of an InstructionForm = new object with the same attribute bindings (A)"]
@@ -76,7 +77,11 @@ def doubling_unit(res):
 
 
 def units(tier):
+    from .c16 import partition_unit, extend_path_unit
     return [
+        Unit("C05/check_for_loopcarried_dep/partition(kernels >= 50 lines)", partition_unit, "P", [(KDG, "KernelDG.check_for_loopcarried_dep")]),
+        Unit("C05/_extend_path", extend_path_unit, "P", [(KDG, "KernelDG._extend_path")]),
+        bounded_unit("C05/parallel-search-equals-sequential", "c16_parallel", [(KDG, "KernelDG.check_for_loopcarried_dep")], timeout=1800),
         Unit("C05/check_for_loopcarried_dep/doubling", doubling_unit, "Pb", [(KDG, "KernelDG.check_for_loopcarried_dep")]),
         bounded_unit("C05/pipeline-vs-cycle-oracle", "dg_oracle", [(KDG, "KernelDG.check_for_loopcarried_dep"), (KDG, "KernelDG._extend_path"),
                      (KDG, "KernelDG.create_DG")], extra_args=["C05"], timeout=1500, decisive=True),
